@@ -191,6 +191,8 @@ def features(spec):
         "link_reservoir_to_reservoir": any(l["start"] not in tanks and l["end"] not in tanks and
                                            {l["start"], l["end"]} <= set(n["name"] for n in srcs) for l in elinks),
         "valve_setting_changed_by_control": any(c.get("attr", "setting") == "setting" for c in spec.get("controls", [])),
+        "tank_volume_curve": any(n.get("vol_curve") for n in spec["nodes"]),
+        "pattern_interpolation": bool(spec["options"].get("pattern_interpolation")),
         "unbalanced_continue": spec["options"].get("unbalanced") == "CONTINUE",
         "small_trials": spec["options"].get("trials") is not None,
         "link_status_changed_by_control": any(c.get("attr") == "status" for c in spec.get("controls", [])),
